@@ -483,30 +483,70 @@ impl Session {
                 }
             }
             "export_par" => {
-                // M threads export concurrently through a shared reference to one context
+                // M threads export concurrently through a shared reference to one context.  With vary=1
+                // every thread uses its own exporter context (base || thread index); the expected value of
+                // each is computed sequentially first, and every concurrent result is compared with it.
                 let n = a.u("len") as usize;
                 let m = (a.u("threads") as usize).clamp(1, 64);
-                let reps = (a.u("reps") as usize).clamp(1, 100_000);
+                let reps = (a.u("reps") as usize).clamp(1, 1_000_000);
+                let vary = a.u("vary") == 1;
                 let name = a.s("ctx");
-                let exctx = a.b("exctx");
-                let run = |c: &(dyn suite::CtxCommon)| -> Vec<Result<Vec<u8>, hpke::HpkeError>> {
-                    std::thread::scope(|s| {
+                let base = a.b("exctx").to_vec();
+                let ctx_of = |t: usize| -> Vec<u8> {
+                    let mut v = base.clone();
+                    if vary {
+                        v.push(t as u8);
+                    }
+                    v
+                };
+                let run = |c: &(dyn suite::CtxCommon)| -> (Vec<String>, u64) {
+                    let expected: Vec<Result<Vec<u8>, hpke::HpkeError>> = (0..m)
+                        .map(|t| {
+                            let mut buf = vec![0x5Au8; n];
+                            c.export(&ctx_of(t), &mut buf).map(|_| buf)
+                        })
+                        .collect();
+                    let barrier = std::sync::Barrier::new(m);
+                    let mism: u64 = std::thread::scope(|s| {
                         let hs: Vec<_> = (0..m)
-                            .map(|_| {
-                                s.spawn(|| {
-                                    let mut last = Ok(Vec::new());
+                            .map(|t| {
+                                let (expected, barrier, ctx_of) = (&expected, &barrier, &ctx_of);
+                                s.spawn(move || {
+                                    let ex = ctx_of(t);
+                                    let mut bad = 0u64;
+                                    barrier.wait();
                                     for _ in 0..reps {
                                         let mut buf = vec![0x5Au8; n];
-                                        last = c.export(exctx, &mut buf).map(|_| buf);
+                                        let r = c.export(&ex, &mut buf).map(|_| buf);
+                                        if r != expected[t] {
+                                            bad += 1;
+                                        }
                                     }
-                                    last
+                                    bad
                                 })
                             })
                             .collect();
-                        hs.into_iter().map(|h| h.join().expect("export thread panicked")).collect()
-                    })
+                        hs.into_iter().map(|h| h.join().expect("export thread panicked")).sum()
+                    });
+                    // and once more sequentially afterwards: a corrupted memo would persist
+                    let mut after_bad = 0u64;
+                    for (t, exp) in expected.iter().enumerate() {
+                        let mut buf = vec![0x5Au8; n];
+                        let r = c.export(&ctx_of(t), &mut buf).map(|_| buf);
+                        if &r != exp {
+                            after_bad += 1;
+                        }
+                    }
+                    let vals = expected
+                        .iter()
+                        .map(|r| match r {
+                            Ok(b) => out(b),
+                            Err(e) => format!("err:{}", err_name(e)),
+                        })
+                        .collect();
+                    (vals, mism + after_bad)
                 };
-                let rs = if let Some(c) = self.cs.get(name) {
+                let (vals, mism) = if let Some(c) = self.cs.get(name) {
                     run(c.as_ref() as &dyn suite::CtxCommon)
                 } else if let Some(c) = self.cr.get(name) {
                     run(c.as_ref() as &dyn suite::CtxCommon)
@@ -514,17 +554,74 @@ impl Session {
                     f.skip("noctx");
                     return f;
                 };
-                let mut distinct: Vec<String> = rs
-                    .iter()
-                    .map(|r| match r {
-                        Ok(b) => out(b),
-                        Err(e) => format!("err:{}", err_name(e)),
-                    })
-                    .collect();
-                let first = distinct[0].clone();
+                let mut distinct = vals.clone();
                 distinct.sort();
                 distinct.dedup();
-                f.ok().kv("first", first).kv("distinct", distinct.len()).kv("threads", m);
+                // distinct counts the *expected* values: 1 without vary, m with vary (for len >= 16)
+                f.ok()
+                    .kv("first", vals[0].clone())
+                    .kv("distinct", distinct.len())
+                    .kv("mism", mism)
+                    .kv("threads", m)
+                    .kv("calls", (m * reps) as u64);
+            }
+            "setup_r_par" | "setup_s_par" => {
+                let threads = (a.u("threads") as usize).clamp(2, 64);
+                let su = self.suite.as_ref().unwrap();
+                let r = if op == "setup_r_par" {
+                    su.setup_r_par(&a.mode(), a.b("skr"), a.b("enc"), a.b("info"), threads)
+                } else {
+                    su.setup_s_par(&a.mode(), a.b("pkr"), a.b("info"), a.b("rng"), threads)
+                };
+                match r {
+                    Ok(rs) => {
+                        let mut vals: Vec<String> = rs
+                            .iter()
+                            .map(|r| match r {
+                                Ok(b) => out(b),
+                                Err(e) => format!("err:{}", err_name(e)),
+                            })
+                            .collect();
+                        let seq_after = vals.pop().unwrap();
+                        let mut distinct = vals.clone();
+                        distinct.push(seq_after.clone());
+                        distinct.sort();
+                        distinct.dedup();
+                        f.ok().kv("value", seq_after).kv("distinct", distinct.len()).kv("threads", threads);
+                    }
+                    Err(e) => {
+                        f.fail(&e);
+                    }
+                }
+            }
+            "peek" => {
+                let name = a.s("ctx");
+                let (secrets, which): (Option<(Vec<u8>, Vec<u8>)>, u8) = if let Some(c) = self.cs.get(name) {
+                    (c.secrets(), 0)
+                } else if let Some(c) = self.cr.get(name) {
+                    (c.secrets(), 1)
+                } else {
+                    f.skip("noctx");
+                    return f;
+                };
+                let Some((bn, es)) = secrets else {
+                    f.skip("nohooks");
+                    return f;
+                };
+                let needles: [&[u8]; 2] = [&bn, &es];
+                let (size, offs) = if which == 0 {
+                    self.cs.get(name).unwrap().peek(&needles)
+                } else {
+                    self.cr.get(name).unwrap().peek(&needles)
+                };
+                let show = |v: &Vec<usize>| {
+                    if v.is_empty() {
+                        "-".to_string()
+                    } else {
+                        v.iter().map(|x| x.to_string()).collect::<Vec<_>>().join(",")
+                    }
+                };
+                f.ok().kv("size", size).kv("bn_at", show(&offs[0])).kv("es_at", show(&offs[1]));
             }
             "set_seq" => {
                 let seq: u64 = a.s("seq").parse().unwrap_or(0);
